@@ -57,7 +57,7 @@ NBITS = 11
 
 def gen_cases(ctx):
     rng = ctx.rng
-    for i in range(ctx.scale(60, 1500)):
+    for i in range(ctx.scale(200, 4000)):
         inst = gen.gen_instance(rng, None, max_jobs=rng.choice([1, 2, 3, 5, 8]), max_machines=rng.choice([1, 2, 3, 4]))
         yield {"kind": "chart", "instance": inst, "seed": rng.randrange(2**31),
                "partial": rng.random() < 0.4, "xlim": rng.choice([None, None, "plus", "big"]),
@@ -74,7 +74,7 @@ def gen_cases(ctx):
                        "stamped": n > 12 or e != "function", "instance": {"cls": "animation"},
                        "video": ctx.tier == "thorough" and e == "function" and n in (11, 101, 150)}
             k += 1
-    for i in range(ctx.scale(6, 120)):
+    for i in range(ctx.scale(12, 250)):
         inst = gen.gen_instance(rng, None, max_jobs=3, max_machines=3, max_ops=10)
         yield {"kind": "animation_real", "instance": inst, "seed": rng.randrange(2**31)}
 
